@@ -89,11 +89,13 @@ Fixpoint split_at (p : N -> bool) (s : text) : option (text * text) :=
 
 Definition count (c : N) (s : text) : nat := length (filter (N.eqb c) s).
 
-Definition new_from_string (value : text) : option dec :=
+(* [chk] is the exponent range test (in_int32 in the code); it is a function argument only so that proofs can
+   speak about the conversion with and without the range test *)
+Definition new_from_string_with (chk : Z -> bool) (value : text) : option dec :=
   (* scientific notation *)
   let r1 := match split_at (fun c => (c =? 69) || (c =? 101))%N value with
             | Some (v, e) => match parse_signed e with
-                             | Some x => if in_int32 x then Some (v, x) else None
+                             | Some x => if chk x then Some (v, x) else None
                              | None => None
                              end
             | None => Some (value, 0%Z)
@@ -110,15 +112,19 @@ Definition new_from_string (value : text) : option dec :=
         end in
       match parse_signed int_string with
       | None => None
-      | Some v => if in_int32 exp then Some (Dec v exp) else None
+      | Some v => if chk exp then Some (Dec v exp) else None
       end
   end.
+
+Definition new_from_string : text -> option dec := new_from_string_with in_int32.
 
 (* ------------------------------------------------------------------------------------------------ *)
 (* newXNumberFromString: TrimSpace, decimalRegexp  ^-?(([0-9]+)|([0-9]+\.[0-9]+)|(\.[0-9]+))$ , NewFromString *)
 
+Definition strip_minus (s : text) : text := match s with 45%N :: r => r | _ => s end.
+
 Definition decimal_regexp (s : text) : bool :=
-  let s := match s with 45%N :: r => r | _ => s end in
+  let s := strip_minus s in
   let (a, r) := span is_digit s in
   match r with
   | [] => negb (match a with [] => true | _ => false end)
@@ -127,9 +133,10 @@ Definition decimal_regexp (s : text) : bool :=
   end.
 
 (* ToXNumber on a text value; None = "unable to convert" *)
-Definition parse_number (s : text) : option dec :=
+Definition parse_number_with (chk : Z -> bool) (s : text) : option dec :=
   let s := trim_space s in
-  if decimal_regexp s then new_from_string s else None.
+  if decimal_regexp s then new_from_string_with chk s else None.
+Definition parse_number : text -> option dec := parse_number_with in_int32.
 
 (* ------------------------------------------------------------------------------------------------ *)
 (* the "=" operator on two numbers: textualBinary converts both with ToXText (Render) and compares *)
